@@ -68,6 +68,8 @@ enum Op {
     Save { uri: String },
     Watched { events: Vec<(String, u32)> },
     Request { method: &'static str, params: Value, class: String },
+    /// a notification the server registers no handler for
+    Stray { method: &'static str, params: Value },
 }
 
 impl Op {
@@ -77,6 +79,7 @@ impl Op {
             Op::Change { changes, uri } => format!("didChange:{}:{}", uri_class(uri), changes.iter().map(|c| c.class).collect::<Vec<_>>().join("+")),
             Op::Close { .. } => "didClose".into(),
             Op::Save { .. } => "didSave".into(),
+            Op::Stray { method, .. } => format!("unhandled-notification:{method}"),
             Op::Watched { events } => if events.iter().all(|e| (1..=3).contains(&e.1)) { "didChangeWatchedFiles".into() } else { "didChangeWatchedFiles:type-out-of-protocol".into() },
             Op::Request { class, .. } => class.clone(),
         }
@@ -116,6 +119,13 @@ fn send_op(s: &mut Server, op: &Op, version: &mut i64) -> Option<i64> {
                     None => json!({"text": c.text}),
                     Some(((l1, c1), (l2, c2))) => {
                         let mut v = json!({"range":{"start":{"line":l1,"character":c1},"end":{"line":l2,"character":c2}},"text":c.text});
+                        // values no u32 can hold: the notification as a whole does not deserialize
+                        match c.class {
+                            "end-column-beyond-u32" => v["range"]["end"]["character"] = json!(4294967296u64),
+                            "end-line-negative" => v["range"]["end"]["line"] = json!(-1),
+                            "end-column-huge-float" => v["range"]["end"]["character"] = json!(1e20),
+                            _ => {}
+                        }
                         if let Some(n) = c.range_length {
                             v["rangeLength"] = json!(n);
                         }
@@ -128,6 +138,10 @@ fn send_op(s: &mut Server, op: &Op, version: &mut i64) -> Option<i64> {
         }
         Op::Close { uri } => {
             s.notify("textDocument/didClose", json!({"textDocument":{"uri":uri}}));
+            None
+        }
+        Op::Stray { method, params } => {
+            s.notify(method, params.clone());
             None
         }
         Op::Save { uri } => {
@@ -311,6 +325,13 @@ impl Model {
                 for c in changes {
                     cur = apply_to_states(&cur, c);
                 }
+                if changes.iter().any(|c| matches!(c.class, "end-column-beyond-u32" | "end-line-negative" | "end-column-huge-float")) {
+                    // a notification that does not even deserialize cannot be processed change by change:
+                    // dropping it as a whole (text as before the notification) and forgetting the document
+                    // is what "an edit it cannot apply is dropped" means for it
+                    cur.extend(before.clone());
+                    cur.insert(St::Forgotten);
+                }
                 if !self.open.contains(uri) {
                     // a change for a closed / never opened document may as well be ignored
                     cur.extend(before);
@@ -321,6 +342,7 @@ impl Model {
                 self.open.remove(uri);
             }
             Op::Save { .. } => {}
+            Op::Stray { .. } => {}
             Op::Watched { events } => {
                 for (uri, typ) in events {
                     let mut cur = self.get(uri);
@@ -423,6 +445,11 @@ fn gen_change(r: &mut Rng, doc: &Doc, hostile: bool) -> Change {
             None
         };
         return Change { range: Some(((s.line, s.col), (e.line, e.col))), text, class: if range_length.is_some() { "valid+rangeLength" } else { "valid" }, range_length };
+    }
+    if r.chance(1, 8) {
+        // "huge values" that are not even a u32 (model: an invalid edit like any other - dropped, document forgotten)
+        let class = *r.pick(&["end-column-beyond-u32", "end-line-negative", "end-column-huge-float"]);
+        return Change { range: Some(((s.line, s.col), (u32::MAX, u32::MAX))), text, class, range_length: None };
     }
     match r.below(4) {
         0 if i != j => Change { range: Some(((e.line, e.col), (s.line, s.col))), text, class: "reversed", range_length: None },
@@ -551,6 +578,16 @@ fn gen_sequence(r: &mut Rng, env: &Env, hostile: bool) -> Vec<Op> {
             // FileChangeType is 1 (created), 2 (changed) or 3 (deleted); a client may send anything
             let events = (0..ne).map(|_| (targets[r.below(targets.len())].clone(), if r.chance(1, 5) { *r.pick(&[0u32, 4, 7, 2147483647]) } else { r.range(1, 3) as u32 })).collect();
             ops.push(Op::Watched { events });
+        } else if hostile && r.chance(1, 12) {
+            // notifications of the protocol this server registers no handler for: to be ignored
+            let (method, params): (&'static str, Value) = match r.below(5) {
+                0 => ("workspace/didChangeWorkspaceFolders", json!({"event":{"added":[],"removed":[]}})),
+                1 => ("textDocument/willSave", json!({"textDocument":{"uri":uri},"reason":1})),
+                2 => ("window/workDoneProgress/cancel", json!({"token":"t"})),
+                3 => ("workspace/didCreateFiles", json!({"files":[{"uri":uri}]})),
+                _ => ("$/setTrace", json!({"value":"off"})),
+            };
+            ops.push(Op::Stray { method, params });
         } else {
             ops.push(gen_request(r, &uri, &doc, hostile));
         }
@@ -717,6 +754,7 @@ fn ops_json(ops: &[Op]) -> Value {
             Op::Change { uri, changes } => json!({"op":"didChange","uri":uri,"changes":changes.iter().map(|c| json!({"range":c.range.map(|(s,e)| json!([[s.0,s.1],[e.0,e.1]])),"text":c.text,"class":c.class,"rangeLength":c.range_length})).collect::<Vec<_>>()}),
             Op::Close { uri } => json!({"op":"didClose","uri":uri}),
             Op::Save { uri } => json!({"op":"didSave","uri":uri}),
+            Op::Stray { method, params } => json!({"op":"notification-without-a-handler","method":method,"params":params}),
             Op::Watched { events } => json!({"op":"didChangeWatchedFiles","events":events}),
             Op::Request { method, params, class } => json!({"op":"request","method":method,"params":params,"class":class}),
         })
